@@ -8,7 +8,7 @@
    real mkstemp behaves like the model's (O_EXCL creation of a name ending in six fresh characters) is the
    trusted part; the correspondence check runs the real one too. *)
 From Coq Require Import String.
-From LV Require Import Base.Buf Strings.HelpersModel Temp.TempDefs Temp.TempModel Temp.TempProofs Gen.TempGen.
+From LV Require Import Base.Buf Strings.HelpersModel Temp.TempDefs Temp.TempModel Temp.TempProofs Temp.TempExact Gen.TempGen.
 Local Open Scope Z_scope.
 
 (* the translator recognised every statement of the function *)
@@ -69,6 +69,55 @@ Theorem C11_temp_history :
     (forall f, In f (w_files w) -> In (fst f) (map fst (w_files w'))).
 Proof. exact temp_history. Qed.
 Print Assumptions C11_temp_history.
+
+(* ---- exactness ---- *)
+
+(* which file a successful call creates and what it leaves in the caller's buffer: with TMPDIR = dir, every dir, template
+   and candidate without NUL such that "<dir>/<template>XXXXXX" fits the 256-byte buffer, every prior content of the
+   caller's buffer and every len from 1 up to its size: the result is the kernel's descriptor, the file
+   <dir>/<template><candidate> exists with mode 0600 and nothing else changed, and the buffer holds the longest prefix of
+   that name that fits len, terminated, the cells behind it untouched *)
+Theorem C11_temp_exact_ok :
+  forall dir tmp s rest len w o p ps,
+    Forall nz_byte s -> Forall nz_byte dir -> Forall nz_byte p ->
+    (length dir + 1 + length s + 6 <= 255)%nat ->
+    1 <= len -> len <= blen (cstr s rest) -> 0 <= o_fd o ->
+    o_dir_ok o = true -> o_picks o = p :: ps -> o_fchmod_ok o = true ->
+    has_file (w_files w) (dir ++ slash ++ s ++ p) = false ->
+    temp_file (env2 (Some dir) tmp) (cstr s rest) len w o =
+    Ok (o_fd o,
+        bytes (firstn (Z.to_nat (len - 1)) (dir ++ slash ++ s ++ p)) ++ Some 0 ::
+          skipn (Nat.min (length (dir ++ slash ++ s ++ p)) (Z.to_nat (len - 1)) + 1) (cstr s rest),
+        {| w_umask := w_umask w; w_files := w_files w ++ [(dir ++ slash ++ s ++ p, 384)];
+           w_fds := (o_fd o, dir ++ slash ++ s ++ p) :: w_fds w |}).
+Proof. exact temp_exact_ok. Qed.
+Print Assumptions C11_temp_exact_ok.
+
+(* the three branches of the getenv chain: TMPDIR wins over TMP, TMP over /tmp, and the name is cut at 255 bytes *)
+Theorem C11_temp_name_branches :
+  forall dir s tmp,
+    temp_name (env2 (Some dir) tmp) s = firstn 255 (dir ++ slash ++ s ++ xs6) /\
+    temp_name (env2 None (Some dir)) s = firstn 255 (dir ++ slash ++ s ++ xs6) /\
+    temp_name (env2 None None) s = firstn 255 ([47; 116; 109; 112; 47] ++ s ++ xs6).
+Proof. exact (fun dir s tmp => conj (temp_name_tmpdir dir tmp s) (conj (temp_name_tmp dir s) (temp_name_default s))). Qed.
+Print Assumptions C11_temp_name_branches.
+
+(* refusal: a name that no longer ends in XXXXXX after the truncation, or a directory that is not there: -1, and nothing
+   at all has changed - not the caller's buffer, not a file, not the umask *)
+Theorem C11_temp_refused :
+  forall env s rest len w o,
+    Forall nz_byte s ->
+    let nm := temp_name env s in
+    ((length nm < 6)%nat \/ beq_bytes (skipn (length nm - 6) nm) xs6 = false \/ o_dir_ok o = false) ->
+    temp_file env (cstr s rest) len w o = Ok (-1, cstr s rest, w).
+Proof. exact temp_refused. Qed.
+Print Assumptions C11_temp_refused.
+
+(* non-vacuity of the refusal: a 250-character TMPDIR cuts the X's off *)
+Example C11_temp_example_refused :
+  let nm := temp_name (env2 (Some (repeat 100 250)) None) [97] in
+  beq_bytes (skipn (length nm - 6) nm) xs6 = false.
+Proof. vm_compute. reflexivity. Qed.
 
 (* non-vacuity: a call that succeeds under umask 0 with the first candidate taken, and one that is refused
    because the name no longer ends in XXXXXX after the truncation *)
